@@ -393,7 +393,9 @@ def one(P, payload, mons=None):
     from fparser import api
 
     form = payload["form"]
-    if form == "free":
+    if payload.get("mode") == "raw":
+        src = payload["text"]
+    elif form == "free":
         src = P.canonical()
     else:
         src, _ = fixedform.render(P, random.Random(payload["layout_seed"]), dict(wrap=72, comments=False, p_extra_break=0.1))
@@ -423,6 +425,11 @@ def one(P, payload, mons=None):
     if w1 != w2:
         k = next((i for i, (x, y) in enumerate(zip(w1, w2)) if x != y), min(len(w1), len(w2)))
         return viol("reparse-structure-differs", "walk item %d: %r vs %r" % (k, w1[k] if k < len(w1) else None, w2[k] if k < len(w2) else None)), src
+    if payload.get("mode") == "raw":
+        want = payload.get("expected_body")
+        if want is not None and [x.lower() for x in b1] != [x.lower() for x in want]:
+            return viol(payload.get("key", "statement-text-changed"), "regenerated %r, expected %r" % (b1, want)), src
+        return None, src
     # content: every statement of P appears in S1 in order
     if len(b1) != len(P.stmts):
         return viol("statement-count", "%d statements in the source, %d regenerated" % (len(P.stmts), len(b1))), src
@@ -462,7 +469,7 @@ def refine_key(P, payload, v):
     """Narrow mechanism keys for the findings known at design time."""
     k = v["key"]
     if k.startswith("regenerated-rejected") and any(
-            st.kind == "typedecl" and re.search(r"(::|\s)\s*function\w*", to_src(st.text), re.I) for st in P.stmts):
+            st.kind in ("typedecl", "component") and re.search(r"(::|\s)\s*function\w*", to_src(st.text), re.I) for st in P.stmts):
         return "regenerated-typedecl-without-colons-reads-as-function-stmt"
     if payload["analyze"] and sum(1 for st in P.stmts if st.kind == "interface" and st.text.strip() == "interface") >= 2 \
             and k in ("reparse-text-differs", "reparse-structure-differs", "statement-count"):
@@ -471,6 +478,11 @@ def refine_key(P, payload, v):
 
 
 def check(payload):
+    if payload.get("mode") == "raw":
+        v, _ = one(None, payload)
+        if isinstance(v, dict):
+            v["key"] = payload.get("key_map", {}).get(v["key"], v["key"])
+        return {"violations": [v] if isinstance(v, dict) else [], "digests": [], "monitors": {"programs_roundtripped": 1}, "tally": {}}
     P = Program.from_json(payload["program"])
     viols, digs = [], []
     mons = {"programs_roundtripped": 0}
@@ -491,6 +503,7 @@ def check(payload):
         Q = shrink_program(P, still, budget=80)
         w, qsrc = one(Q, payload)
         v["shrunk"] = {"source": qsrc, "detail": w["detail"] if isinstance(w, dict) else None}
+        v["payload"] = dict(payload, program=Q.to_json())
         v["key"] = refine_key(Q, payload, v)
         viols.append(v)
     return {"violations": viols, "digests": digs, "monitors": mons,
